@@ -515,6 +515,18 @@ def run(tier, seed):
             run.add_verdicts([report.Verdict(d["name"], st, "z3-%s" % z3.get_version_string(), d["seconds"], "post", OP4, d["detail"])])
     except (LookupError, strsym.Unsupported) as ex:
         run.undecided.append("kernel extraction: %r" % ex)
+    # loop contract of the dense binary writer on a ghost output file: every record it writes meets the reader contract's record definition (contracts/op4_writers.py)
+    wfail = False
+    try:
+        from vc import pipeline
+        from contracts import op4_writers as OW
+        nb = len(run.verdicts)
+        pipeline.verify_jobs(run, OW.jobs(report.read_source(OP4)))
+        wfail = any(v.status == "failed" for v in run.verdicts[nb:])
+        run.assume("_write_binary_header returns (columns, 2 if complex else 1) and appends the 32-byte header record (callee contract assumed in the writer proof; bounded round trips exercise it)",
+                   "numpy: np.nonzero(v)[0] lists the non-zero rows in increasing order; slicing and .ravel() give views of the column; `v.dtype = float` reinterprets complex128 as pairs of doubles")
+    except Exception as ex:          # noqa: BLE001
+        run.undecided.append("op4 writer contract: checker error %r" % (ex,))
     # ASCII field width for every decade and sign
     es = sorted(set(range(-12, 13)) | {-324, -323, -308, -307, -101, -100, -99, -98, 98, 99, 100, 101, 307, 308} | (set(range(-324, 309)) if tier != "quick" else set(range(-300, 301, 60))))
     jobs = [(dg, neg, e) for dg in (16, 9) for neg in (False, True) for e in es]
@@ -553,6 +565,11 @@ def run(tier, seed):
             conc = witness_d3()
         if conc is None and cf is not None:
             conc = dict(cf, fails=True)            # the bounded round trips found a concrete failing file for the changed code
+        if conc is None and wfail:
+            try:
+                conc = OW.concrete_search()
+            except Exception as ex:          # noqa: BLE001
+                run.notes.append("writer counterexample search: %r" % (ex,))
         run.violation(v.name, "; ".join(x.name[:100] for x in failed[:5]), dict(failed=[x.as_dict() for x in failed[:8]], verifier_output=v.detail, concrete=conc), concrete=bool(conc and conc.get("fails")))
     elif cf is not None:
         run.violation("bounded:roundtrip", cf["what"], dict(concrete=cf), concrete=True)
